@@ -1276,6 +1276,15 @@ func (c *Ctx) c02Pop3() {
 	r.Floor("C02/POP3/lines", "scanners over message sources in pop3", n, 1)
 	c.c02SendVerbatim(send)
 	c.c02Pop3Consumers()
+	// nothing is lost after it was written: between writing a message's raw file and the index
+	// update nothing can remove the mailbox directory (decided by C11; an eviction placed there
+	// deletes the content just written when it empties the mailbox, e.g. cap 1)
+	nK := c.borrow(func(c2 *Ctx) {
+		if m2 := c2.fsModel(); m2 != nil {
+			c2.c11Add(m2)
+		}
+	}, "C11/ORDER/add/(*file.Store).AddMessage:no-removal-in-between", "C02/STORE/kept", "file store: the raw file just written cannot be removed again before the index names it")
+	c.R.Floor("C02/STORE/kept", "borrowed obligations", nK, 1)
 }
 
 // c02Pop3Consumers: every consumer of a message source in the POP3 package is one the streaming
